@@ -251,7 +251,14 @@ def main(tier, rep):
         return cache[key]
 
     cases = gen_cases(tier, common.seed())
-    evs = [run_case(c, stacks) for c in cases]
+    evs = []
+    for c in cases:
+        evs.append(run_case(c, stacks))
+        # cases are independent: a call that left the connection out of sync (e.g. the known empty-key finding, whose
+        # malformed noreply command the server answers with an error line nobody reads) must not leak into the next one
+        net, cl = stacks(c)
+        if any(p[1] or p[2] for p in net.boundary()):
+            del cache[(c.stack, c.prefix, c.unicode, c.encoding, c.dnr)]
     B = 400
     traces = [{"h": {"maxrej": B + 1}, "ev": evs[i:i + B]} for i in range(0, len(evs), B)]
     acc, rej, st, _ = tlc.validate_traces("WireTrace", traces, chunk=100)
